@@ -173,20 +173,12 @@ func (p *Prog) directEffects(fi *FuncInfo, u *Universe) *Effects {
 
 // closeEffects adds the (already computed) transitive effects of the callees recorded in e
 func (p *Prog) closeEffects(e *Effects, self string) {
-	if e.FuncValues {
-		e.Calls["$unknown"] = true
-	}
 	for _, c := range sortedKeys(e.Calls) {
 		if ce, ok := p.Effects[c]; ok {
 			e.merge(ce, c)
 			if ce.FuncValues {
 				e.FuncValues = true
 			}
-		}
-	}
-	if e.FuncValues {
-		if ce, ok := p.Effects["$unknown"]; ok {
-			e.merge(ce, "$unknown (func value)")
 		}
 	}
 }
@@ -442,10 +434,12 @@ func (p *Prog) callEffects(fi *FuncInfo, info *types.Info, call *ast.CallExpr, e
 		return
 	}
 	// func value call (parameter, field, closure variable)
-	if _, isLit := fun.(*ast.FuncLit); isLit {
-		return // body is part of this function's AST
-	}
 	e.FuncValues = true
+	if t := info.TypeOf(fun); t != nil {
+		e.Calls["$fv:"+canonType(t, nil)] = true
+	} else {
+		e.Calls["$fv:?"] = true
+	}
 }
 
 // heaps of opaque dependency types: never inspected by the verifier, writes through them do not matter
@@ -489,9 +483,18 @@ func (p *Prog) ComputeEffects() {
 		}
 		p.Direct[n] = d
 	}
-	// $unknown: what a call of an unknown func value may do = any named function used as a value, any closure
-	unk := newEffects()
-	unk.FuncValues = true
+	// $fv:<signature>: what a call of a func value of that type may do = any named function of that type used as a
+	// value, any closure of that type (closed world: the repository packages)
+	pool := func(sig string) *Effects {
+		k := "$fv:" + sig
+		if e, ok := p.Effects[k]; ok {
+			return e
+		}
+		e := newEffects()
+		p.Effects[k] = e
+		p.Direct[k] = newEffects()
+		return e
+	}
 	for _, n := range p.Order {
 		fi := p.Funcs[n]
 		info := fi.Pkg.TypesInfo
@@ -511,29 +514,42 @@ func (p *Prog) ComputeEffects() {
 				}
 				if fn, ok := info.Uses[x].(*types.Func); ok {
 					if callee, ok := p.ByObj[fn]; ok {
-						unk.Calls[callee.Name] = true
+						sig := canonType(fn.Type(), nil)
+						if fn.Type().(*types.Signature).Recv() != nil {
+							// method value: its func type drops the receiver
+							s2 := fn.Type().(*types.Signature)
+							sig = canonType(types.NewSignatureType(nil, nil, nil, s2.Params(), s2.Results(), s2.Variadic()), nil)
+						}
+						pool(sig).Calls[callee.Name] = true
+						p.Direct["$fv:"+sig].Calls[callee.Name] = true
 					}
 				}
 			case *ast.FuncLit:
+				sig := canonType(info.TypeOf(x), nil)
 				le := p.effectsOfNode(fi, x, u)
-				unk.merge(le, n+" (closure)")
+				pe := pool(sig)
+				pe.merge(le, n+" (closure)")
+				if le.FuncValues {
+					pe.FuncValues = true
+				}
 				for c := range le.Calls {
-					unk.Calls[c] = true
+					pe.Calls[c] = true
+					p.Direct["$fv:"+sig].Calls[c] = true
 				}
 			}
 			return true
 		})
 	}
-	p.Effects["$unknown"] = unk
-	for _, n := range p.Order {
-		if p.Effects[n].FuncValues {
-			p.Effects[n].Calls["$unknown"] = true
+	names := append([]string{}, p.Order...)
+	for k := range p.Effects {
+		if strings.HasPrefix(k, "$fv:") {
+			names = append(names, k)
 		}
 	}
+	sort.Strings(names)
 	changed := true
 	for changed {
 		changed = false
-		names := append([]string{"$unknown"}, p.Order...)
 		for _, n := range names {
 			e := p.Effects[n]
 			for c := range e.Calls {
@@ -543,7 +559,6 @@ func (p *Prog) ComputeEffects() {
 					}
 					if ce.FuncValues && !e.FuncValues {
 						e.FuncValues = true
-						e.Calls["$unknown"] = true
 						changed = true
 					}
 				}
@@ -555,7 +570,11 @@ func (p *Prog) ComputeEffects() {
 // ComputeReach: transitive callee sets
 func (p *Prog) ComputeReach() {
 	p.Reach = map[string]map[string]bool{}
-	for _, n := range p.Order {
+	var all []string
+	for n := range p.Direct {
+		all = append(all, n)
+	}
+	for _, n := range all {
 		r := map[string]bool{}
 		var stack []string
 		for c := range p.Direct[n].Calls {
